@@ -173,6 +173,23 @@ func (ex *Exec) linkClosureContracts(st *State, fc *FuncContract, pc *preparedCa
 				env.names["r"] = v
 			}
 		}
+		// the clauses were verified UNDER the literal's `closure N requires`: they are available only where
+		// those hold (requires about captured variables must be provable from the state at this call,
+		// requires about the parameters restrict the quantifier)
+		var pres []string
+		preOK := true
+		for _, rq := range ls.Requires {
+			t, err := env.elabBool(rq.Expr)
+			if err != nil {
+				ex.fail(pc.call.Pos(), "closure %d requires %q (linking to %s): %v", ord, rq.Src, fc.Key, err)
+				preOK = false
+				continue
+			}
+			pres = append(pres, t)
+		}
+		if !preOK {
+			continue
+		}
 		for _, en := range ls.Ensures {
 			if en.Canary {
 				continue
@@ -181,6 +198,9 @@ func (ex *Exec) linkClosureContracts(st *State, fc *FuncContract, pc *preparedCa
 			if err != nil {
 				ex.fail(pc.call.Pos(), "closure %d ensures %q (linking to %s): %v", ord, en.Src, fc.Key, err)
 				continue
+			}
+			if len(pres) > 0 {
+				t = implies(and(pres...), t)
 			}
 			if len(binders) > 0 {
 				t = "(forall (" + strings.Join(binders, " ") + ") " + t + ")"
